@@ -100,6 +100,8 @@ func (sc *specCtx) eval(e Expr) Val {
 			return boolVal("true")
 		}
 		return boolVal("false")
+	case *StrLit:
+		return sc.fc.strLit(sc.st, e.Val, nil)
 	case *Ident:
 		if v, ok := sc.lookup(e.Name); ok {
 			return v
@@ -190,6 +192,10 @@ func (sc *specCtx) eval(e Expr) Val {
 				s = SSeq
 			case "Str":
 				s = SStr
+			case "F64":
+				s = SF64
+			case "Cplx":
+				s = SC128
 			default:
 				specFail("unknown sort %q for quantified variable", v.Sort)
 			}
@@ -433,6 +439,10 @@ func sortByName(n string) Sort {
 		return SU
 	case "Str":
 		return SStr
+	case "F64":
+		return SF64
+	case "Cplx":
+		return SC128
 	}
 	return SU
 }
@@ -639,6 +649,29 @@ func (sc *specCtx) evalCall(e *CallE) Val {
 	case "unboxInt":
 		a := args(1)
 		return intVal(app("unbox_Int", a[0].T))
+	case "flt", "fgt", "feq", "fle", "fge":
+		a := args(2)
+		sc.want(a[0], SF64, e)
+		sc.want(a[1], SF64, e)
+		op := map[string]string{"flt": "fp.lt", "fgt": "fp.gt", "feq": "fp.eq", "fle": "fp.leq", "fge": "fp.geq"}[e.Fun]
+		return boolVal(app(op, a[0].T, a[1].T))
+	case "isnan":
+		a := args(1)
+		sc.want(a[0], SF64, e)
+		return boolVal(app("fp.isNaN", a[0].T))
+	case "cgoeq":
+		a := args(2)
+		return boolVal(app("cplx_goeq", a[0].T, a[1].T))
+	case "cre":
+		a := args(1)
+		return Val{T: app("cplx_re", a[0].T), S: SF64}
+	case "cim":
+		a := args(1)
+		return Val{T: app("cplx_im", a[0].T), S: SF64}
+	case "slt":
+		a := args(2)
+		sc.want(a[0], SStr, e)
+		return boolVal(app("str_lt", a[0].T, a[1].T))
 	case "unboxBool":
 		a := args(1)
 		return boolVal(app("unbox_Bool", a[0].T))
